@@ -11,7 +11,7 @@ Tie to the code (model: coq/theories/Results.v, theorems: coq/props/C16.v):
                    full state table for the event index; the Coq model is fed the snapshots with the real mappers'
                    outputs, the real `query` verdicts and the to_observe verdicts and predicts get_results().
   stream `single`  the same programs forced to have a ONE-simulant population and a binned stratification
-                   (finding F-N: `_bin_data` squeezes the 1x1 frame to a scalar and raises).
+                   (was finding F-R: `_bin_data` squeezed the 1x1 frame to a scalar and raised; fixed by 44312e20).
   stream `strat`   ResultsContext.add_stratification + Stratification.stratify on single values (bin edges exact).
   stream `resolve` ResultsManager._get_stratifications against sort(dedup(default+requested+additional) - excluded).
 Direct oracle: results recomputed from the snapshots with plain python loops after EVERY event; conservation law
@@ -37,6 +37,28 @@ ASSUMPTIONS = [
     "maps from {stratification name -> category} to value",
 ]
 LEVEL_NOTE = ""
+TRUSTED = [
+    "C16: mapper outputs, pandas `query` verdicts, aggregator weights and to_observe verdicts are computed by the harness "
+    "from its own snapshot of the state table (public get_population) and fed to the model as data",
+    "C16: observations' registered (when, pop_filter, stratifications) and stratifications' categories are cross-checked "
+    "through the private ResultsContext attributes when readable (read defensively; skipped otherwise)",
+    "C16: Results.v transcribes results/{manager,context,stratification,observation}.py incl. pandas groupby(observed="
+    "False)/dropna/reindex/pd.cut(right=False) semantics - validated on the explored cases only",
+]
+CLAIM = {
+    "technique": "Coq proof over a Gallina model + sampled model/implementation correspondence",
+    "text": "Theorems (all registries, snapshots, event histories): per event the increments partition the eligible "
+            "simulants (each counted in exactly one stratum, ineligible/excluded in none), reported totals are the sums of "
+            "the accepted events' increments, the key set is the full product of non-excluded categories from post_setup "
+            "on, an unknown category stops the run without changing totals, concatenating observations collect exactly the "
+            "filtered rows in order, and the stratification tuple is independent of set iteration order.  The model is "
+            "tied to /repo/src by running generated programs on real SimulationContexts (probe snapshots around the "
+            "results manager's listener) and letting Coq compare its prediction with get_results() after post_setup and "
+            "at the end; a python oracle recomputes every table after every event.",
+    "note": "Aggregates are integer-valued (len, pandas sums of integers); mapper/query/to_observe behaviour is input data; "
+            "sampled correspondence (not exhaustive); user-supplied formatters/aggregators other than len and sums, value "
+            "pipelines as stratification sources, and degenerate two-equal-edge bins are outside the model.",
+}
 
 PHASES = ["time_step__prepare", "time_step", "time_step__cleanup", "collect_metrics"]
 FILTERS = ["tracked==True", "", "age >= 10", "tracked==True and sex == 'F'", "w1 > 2 or color == 'red'",
@@ -162,7 +184,8 @@ def oz(x):
 # ----------------------------------------------------------------------------------------------------------------
 # generator of programs
 # ----------------------------------------------------------------------------------------------------------------
-def gen_strat(rng, name=None):
+def gen_strat(rng, name=None, bad=1.0):
+    """bad: scale of the probability of each malformed registration (refused ones are the `strat` stream's subject)"""
     name = name or rng.choice(list(MAPPERS) + list(DEFAULTS) * 2 + list(BINNED) * 2)
     s = {"name": name}
     if name in MAPPERS:
@@ -179,13 +202,13 @@ def gen_strat(rng, name=None):
             edges = rng.choice([[0, 10, 25, 60], [0, 5, 60], [0, 60], [0, 10, 20, 30, 60], [0, 10, 25, 38], [5, 10, 60]])
         else:
             edges = rng.choice([[-5, 0, 5, 12], [-5, 12], [-5, 2, 3, 12], [-5, 0, 4], [0, 3, 12]])
-        if r < 0.04:
-            edges = edges[:-1] + [edges[0]]          # not increasing
-        if r > 0.97:
+        if r < 0.04 * bad:
+            edges = edges[:-1] + [edges[0] - 1]      # not increasing (pd.cut refuses it on every call)
+        if r > 1 - 0.03 * bad:
             edges = edges + [edges[-1] + 7]          # one edge too many
         s["edges"] = edges
-        universe = [f"{name[0]}{i}" for i in range(len(edges) - 1)] if r <= 0.97 else [f"{name[0]}{i}" for i in range(len(edges) - 2)]
-        if 0.9 < r <= 0.93 and len(universe) > 1:
+        universe = [f"{name[0]}{i}" for i in range(len(edges) - 1)] if r <= 1 - 0.03 * bad else [f"{name[0]}{i}" for i in range(len(edges) - 2)]
+        if 0.9 < r <= 0.9 + 0.03 * bad and len(universe) > 1:
             universe = universe[:-1]                 # one label too few
     cats = list(universe)
     if s["kind"] != "binned":
@@ -200,7 +223,7 @@ def gen_strat(rng, name=None):
             cats.append("purple")
         elif 0.83 < r <= 0.85 and name == "warm":
             cats += ["F_odd", "M_odd"]
-    if rng.random() < 0.03 and cats:
+    if rng.random() < 0.03 * bad and cats:
         cats.append(rng.choice(cats))                # duplicate category -> refused
     s["cats"] = cats
     r = rng.random()
@@ -208,10 +231,10 @@ def gen_strat(rng, name=None):
         s["excl"] = None
     elif r < 0.66:
         s["excl"] = []
-    elif r < 0.94:
+    elif r < 1 - 0.06 * bad:
         k = rng.choice([1, 1, 2])
-        s["excl"] = rng.sample(cats, min(k, len(cats)))
-    elif r < 0.97:
+        s["excl"] = rng.sample(cats, min(k, max(len(set(cats)) - 1, 0)))     # leaves at least one category
+    elif r < 1 - 0.03 * bad:
         s["excl"] = ["nonsense"]                     # unknown exclusion -> refused
     else:
         s["excl"] = list(dict.fromkeys(cats))        # everything excluded -> refused (empty categories)
@@ -225,10 +248,13 @@ def gen_people(rng, n):
 
 def gen_program(rng, single=False):
     nstr = rng.choice([0, 1, 1, 2, 2, 2, 3, 3, 4])
-    strats = [gen_strat(rng) for _ in range(nstr)]
+    # mostly distinct names (a repeated name is refused, which would starve the 3-4 stratification cases)
+    pool_names = list(MAPPERS) + list(DEFAULTS) + list(BINNED)
+    rng.shuffle(pool_names)
+    strats = [gen_strat(rng, pool_names[i] if rng.random() < 0.9 else None, bad=0.35) for i in range(nstr)]
     if single and not any(s["kind"] == "binned" for s in strats):
-        strats.append(gen_strat(rng, rng.choice(list(BINNED))))
-    if rng.random() < 0.05 and strats:
+        strats.append(gen_strat(rng, rng.choice(list(BINNED)), bad=0.35))
+    if rng.random() < 0.03 and strats:
         strats.append(gen_strat(rng, strats[0]["name"]))          # duplicate name -> refused
     names = [s["name"] for s in strats]
     has_binned = any(s["kind"] == "binned" for s in strats)
@@ -236,7 +262,7 @@ def gen_program(rng, single=False):
     for s in strats:
         if rng.random() < 0.3:
             cs = list(dict.fromkeys(s["cats"]))
-            cfg_excl[s["name"]] = rng.sample(cs, min(len(cs), rng.choice([1, 1, 2]))) if rng.random() < 0.93 else ["zzz"]
+            cfg_excl[s["name"]] = rng.sample(cs, min(max(len(cs) - 1, 0), rng.choice([1, 1, 2]))) if rng.random() < 0.97 else ["zzz"]
     defaults = [n for n in dict.fromkeys(names) if rng.random() < 0.3]
     obs = []
     for i in range(rng.randint(1, 5)):
@@ -264,8 +290,6 @@ def gen_program(rng, single=False):
         n0 = rng.choice([1, 1, 1, 0])
     else:
         n0 = rng.choice([0, 1, 2, 3, 4, 5, 6, 9])
-        if has_binned and n0 < 2:
-            n0 += 2               # one-row populations with a binned stratification are the `single` stream (F-N)
     steps = rng.randint(1, 4)
     script = []
     born = 0
@@ -281,7 +305,7 @@ def gen_program(rng, single=False):
                             script.append([st, ph, prio, "age", rng.choice([1, 5])])
                         continue
                     if r < 0.22:
-                        k = rng.choice([1, 2, 3]) if not (has_binned and n0 + born == 0) else 2
+                        k = rng.choice([1, 2, 3])
                         script.append([st, ph, prio, "birth", k]); born += k
                     elif r < 0.45:
                         script.append([st, ph, prio, "untrack", [rng.randrange(0, n0 + born + 1) for _ in range(rng.randint(1, 3))]])
@@ -472,22 +496,6 @@ def make_components(case, log):
     return C16Pop(), C16Obs()
 
 
-_SQ = {}
-
-
-def squeeze_defect():
-    """Does `_bin_data` refuse a one-row population today?  Read off the live code (a real one-simulant run)."""
-    if "v" not in _SQ:
-        case = {"n0": 1, "steps": 1, "step_size": 1, "cfg_excl": {}, "defaults": [], "script": [],
-                "strats": [{"name": "age_bin", "kind": "binned", "edges": [0, 60], "cats": ["a0"], "excl": None}],
-                "obs": [{"name": "o0", "kind": "count", "filter": None, "when": None, "to_observe": 0, "wcol": 0,
-                         "cols": [], "add": ["age_bin"], "excl": []}],
-                "people": [["red", "F", 5, 1, 1]]}
-        r = execute(case)
-        _SQ["v"] = r["run_error"] is not None
-    return _SQ["v"]
-
-
 # ----------------------------------------------------------------------------------------------------------------
 # running a program on the real code
 # ----------------------------------------------------------------------------------------------------------------
@@ -533,9 +541,8 @@ def execute(case):
            "stratification": {"default": list(case["defaults"]), "excluded_categories": dict(case["cfg_excl"])}}
     sim = SimulationContext(components=[pop, obsc], configuration=cfg, logging_verbosity=0)
     boot.quiet_logging()
-    mgr = sim._results
-    log["table"] = lambda: sim._population.get_population(True)
-    log["raw_results"] = lambda: {k: v.copy() for k, v in mgr._raw_results.items()}
+    log["table"] = lambda: sim.get_population(untracked=True)          # public API only
+    log["raw_results"] = lambda: sim.get_results()
     out = {"log": log, "sim": sim, "post_error": None, "run_error": None, "initial": None, "final": None}
     try:
         sim.setup()
@@ -554,18 +561,29 @@ def execute(case):
 
 
 def real_observations(sim):
-    found = {}
-    for when, groups in sim._results._results_context.observations.items():
-        for (pop_filter, strat_names), obs_list in groups.items():
-            for o in obs_list:
-                found[o.name] = (when, pop_filter, strat_names, o)
-    return found
+    """name -> (when, pop_filter, stratification tuple), read DEFENSIVELY off private attributes (None if the
+    internals were reorganised: the registration cross-check is then skipped, the results themselves still decide)."""
+    try:
+        found = {}
+        for when, groups in sim._results._results_context.observations.items():
+            for (pop_filter, strat_names), obs_list in groups.items():
+                for o in obs_list:
+                    found[o.name] = (when, pop_filter, strat_names, o)
+        return found
+    except Exception:
+        return None
+
+
+def real_stratifications(sim):
+    try:
+        return {s.name: s for s in sim._results._results_context.stratifications}
+    except Exception:
+        return None
 
 
 def run_sim(case, expect_single=False):
     import pandas as pd
     intern = Interner()
-    sq = squeeze_defect()
     r = execute(case)
     log, sim = r["log"], r["sim"]
     ok, msgs = True, []
@@ -582,7 +600,7 @@ def run_sim(case, expect_single=False):
     if len(strat_codes) != len(case["strats"]) or len(obs_codes) != len(case["obs"]):
         return Result(ok=False, msg=f"harness: set-up did not reach all registrations: {r['post_error']!r} {log['errors']}")
     regs = []            # accepted stratifications: dicts with cats (non-excluded), excl
-    real_strats = {s.name: s for s in sim._results._results_context.stratifications}
+    real_strats = real_stratifications(sim)
     for s, code in zip(case["strats"], strat_codes):
         # oracle for the registration outcome (the documented refusals)
         cats = s["cats"]
@@ -595,8 +613,8 @@ def run_sim(case, expect_single=False):
         if code == 0:
             regs.append({"name": s["name"], "kind": s["kind"], "cats": [c for c in cats if c not in to_ex],
                          "excl": list(to_ex), "all": list(cats), "edges": s.get("edges")})
-            rs = real_strats.get(s["name"])
-            if rs is None or list(rs.categories) != regs[-1]["cats"] or list(rs.excluded_categories) != regs[-1]["excl"]:
+            rs = real_strats.get(s["name"]) if real_strats is not None else None
+            if real_strats is not None and (rs is None or list(rs.categories) != regs[-1]["cats"] or list(rs.excluded_categories) != regs[-1]["excl"]):
                 fail(f"registered stratification {s['name']} has categories {rs and rs.categories} / excluded "
                      f"{rs and rs.excluded_categories}")
     reg_names = [g["name"] for g in regs]
@@ -634,8 +652,10 @@ def run_sim(case, expect_single=False):
             tup = list(spec)
             if code == 0:
                 expected_tuple[o["name"]] = spec
-                real = robs.get(o["name"])
-                if real is None:
+                real = robs.get(o["name"]) if robs is not None else None
+                if robs is None:
+                    pass
+                elif real is None:
                     fail(f"observation {o['name']} not found in the results context")
                 else:
                     tup = list(real[2]) if real[2] is not None else []
@@ -673,7 +693,7 @@ def run_sim(case, expect_single=False):
     for g in regs:
         tags.append("kind_" + g["kind"])
     if post_code == 1:
-        coq = "(" + cpair(cbool(sq), cfg_coq, qs_coq, clist(oreqs), cpair(nat(NF), nat(NW), nat(NP)), z(1), "[]", "[]",
+        coq = "(" + cpair(cfg_coq, qs_coq, clist(oreqs), cpair(nat(NF), nat(NW), nat(NP)), z(1), "[]", "[]",
                           cpair(z(0), z(0)), "[]") + " : sim_case)"
         return Result(ok=ok, msg="; ".join(msgs), coq=coq, key=None, obs={"post_setup": repr(r["post_error"])[:200]},
                       tags=tuple(tags + ["post_setup_refused"]))
@@ -772,17 +792,12 @@ def run_sim(case, expect_single=False):
             n_nonempty += 1
         is_last = ei == len(log["events"]) - 1
         raised_here = is_last and r["run_error"] is not None and ev["post"] is None
-        defect = bool(recs) and len(recs) == 1 and any(g["kind"] == "binned" for g in regs) and unknown is None
-        if defect:
+        if bool(recs) and len(recs) == 1 and any(g["kind"] == "binned" for g in regs) and unknown is None:
             one_row_binned = True
         if raised_here:
             if unknown is None:
-                if defect and sq:
-                    fail(f"F-N: a ONE-simulant event population with a binned stratification stopped the simulation "
-                         f"({r['run_error']!r}) although every mapped value is a valid category")
-                else:
-                    fail(f"event {ei} ({PHASES[ev['phase']]}): simulation stopped with {r['run_error']!r} although "
-                         f"every mapped value is a known category")
+                fail(f"event {ei} ({PHASES[ev['phase']]}): simulation stopped with {r['run_error']!r} although "
+                     f"every mapped value is a known category")
         elif unknown is not None:
             fail(f"event {ei} ({PHASES[ev['phase']]}): stratification {unknown[0]} mapped a simulant to {unknown[1]!r} "
                  f"(not a category) but the simulation went on" )
@@ -858,7 +873,7 @@ def run_sim(case, expect_single=False):
         final_coq = results_coq(r["final"])
     except (AssertionError, KeyError) as e:
         return Result(ok=False, msg="; ".join(msgs + [f"final results malformed: {e}"]))
-    coq = "(" + cpair(cbool(sq), cfg_coq, qs_coq, clist(oreqs), cpair(nat(NF), nat(NW), nat(NP)), z(0), initial_coq,
+    coq = "(" + cpair(cfg_coq, qs_coq, clist(oreqs), cpair(nat(NF), nat(NW), nat(NP)), z(0), initial_coq,
                       clist("\n    " + e for e in ev_coq), cpair(z(fcode), z(nacc)), final_coq) + " : sim_case)"
     tags.append(f"events{min(len(log['events']) // 4 * 4, 16)}")
     if one_row_binned:
@@ -870,13 +885,6 @@ def run_sim(case, expect_single=False):
                 "run_error": repr(r["run_error"])[:200] if r["run_error"] else None,
                 "final": {k: (v.to_dict("records")[:12]) for k, v in r["final"].items()}}
     return Result(ok=ok, msg="; ".join(msgs), coq=coq, key=case if nontrivial else None, obs=obs_json, tags=tuple(tags))
-
-
-def finding_of_sim(case, res):
-    """F-N only: the single message of the oracle is the F-N one (anything else alarms)."""
-    if res.msg.startswith("F-N:") and "; " not in res.msg:
-        return "F-N"
-    return None
 
 
 # ----------------------------------------------------------------------------------------------------------------
@@ -980,8 +988,6 @@ def run_strat(case):
                     ok, msg = False, f"mapped column is not the ordered categorical of the non-excluded categories: {out.dtype}"
             except ValueError as e:
                 o = (2, 0)
-                if "Expected a Series" in str(e):
-                    o = None            # one-row frame with a binned stratification: finding F-N, not this stream's subject
             # direct oracle
             if s["kind"] == "binned":
                 e = s["edges"]
@@ -995,8 +1001,6 @@ def run_strat(case):
             else:
                 exp = (2, 0) if v is None or v not in cats else ((0, intern(v)) if v in keep else (1, 0))
                 raw = None if v is None else intern(v)
-            if o is None:
-                continue
             if o != exp:
                 ok, msg = False, f"value {v!r}: stratify gave {o}, the property says {exp}"
             vals_coq.append(cpair(oz(raw), cpair(z(o[0]), z(o[1]))))
@@ -1048,12 +1052,12 @@ def _corpus(name):
 def streams(tier):
     imp = "From Viv Require Import Common Results."
     return [
-        Stream(name="sim", imports=imp, check="check_sim", gen=gen_sim, run=run_sim, n_quick=110, n_thorough=1500,
-               corpus=lambda: _corpus("sim"), finding_of=finding_of_sim,
+        Stream(name="sim", imports=imp, check="check_sim", gen=gen_sim, run=run_sim, n_quick=100, n_thorough=1200,
+               corpus=lambda: _corpus("sim"),
                doc="whole simulations: probe snapshots -> model -> get_results()"),
-        Stream(name="single", imports=imp, check="check_sim", gen=gen_single, run=run_sim, n_quick=6, n_thorough=40,
-               corpus=lambda: _corpus("single"), finding_of=finding_of_sim,
-               doc="one-simulant populations with a binned stratification (finding F-N)"),
+        Stream(name="single", imports=imp, check="check_sim", gen=gen_single, run=run_sim, n_quick=12, n_thorough=60,
+               corpus=lambda: _corpus("single"),
+               doc="one-simulant populations with a binned stratification (was finding F-R, fixed)"),
         Stream(name="strat", imports=imp, check="check_strat", gen=gen_strat_case, run=run_strat, n_quick=400,
                n_thorough=6000, corpus=lambda: _corpus("strat")),
         Stream(name="resolve", imports=imp, check="check_resolve", gen=gen_resolve, run=run_resolve, n_quick=400,
